@@ -398,6 +398,48 @@ _pp("C24", "pipe_near", "4.10", "Layout stage guard evaluated by TLC: every top-
     "Placement guard of the near layout.", _lay_assume + ["main diagram = objects whose top-level ancestor has no constant near, with their outside labels/icons, and the routes among them", "with several near shapes of one phase the later ones are centred on a box the earlier ones extended: centring is only checked for a single shape per phase"])
 
 
+# ---------------------------------------------------------------------------------- render (C25 C28 C29 C30 C31)
+def corrupt_render(lines, pid):
+    for e in lines:
+        ev = e.get("ev")
+        if pid == "C28" and ev == "export" and e.get("ok") == 1 and e["shapeIDs"]:
+            e["shapeIDs"].pop()
+            return "one exported shape dropped"
+        if ev == "render" and e.get("ok") == 1:
+            if pid == "C25" and e["again"]:
+                e["again"][0] = "0000000000000000"
+                return "digest of a repeated render replaced"
+            if pid == "C29" and e["extents"]:
+                e["extents"][0][3] += 5000
+                return "a drawn extent stretched 5000 px to the right"
+            if pid == "C30":
+                e["elems"].append("script")
+                return "a script element added to the element set"
+            if pid == "C31" and e["css"]:
+                k = sorted(e["css"])[0]
+                e["css"][k] = "#010203"
+                return "stylesheet colour of %s replaced" % k
+    return None
+
+
+_pipe_family("pipe_render", "render", "layout,render", 100, 600, "dagre")
+FAMILIES["pipe_render"]["corrupt"] = corrupt_render
+_gen_render = ("mode render: 1-5 objects, all shapes, containers, styles, explicit sizes, icons, markdown, near constants, classes, tooltips and links; names, labels, tooltips and links carry XML metacharacters, quotes, "
+               "control characters and the marker ZQXJ inside attribute-breaking and element-injecting payloads; dagre; per diagram 2 exports (a random catalog theme and one of the special-rule themes 300/301/303) and 3 renders "
+               "(pad 100 / random pad + sketch + random theme / centre + scale + dark theme 200|201 + 1-4 random colour overrides); 600 diagrams. ")
+_rn_assume = ["SVG tokenised with Go's strict encoding/xml (HTML entities allowed)", "element/attribute vocabulary = specs/svg_vocab.json, learnt by tools/learn_vocab.sh from the marker-free twin diagrams (mode render-plain) on the unchanged tree"]
+_pp("C25", "pipe_render", "4.11", "Render stage determinism guard: the same input and options compiled, laid out and rendered again from 2 concurrent goroutines (while other diagrams are processed in up to 12 goroutines); TLC checks all SVG digests equal",
+    _gen_render + "Non-trivial: every diagram.", "Determinism guard of the whole pipeline in one process.", ["separate processes and the race detector are not part of this check", "each run uses its own text ruler (textmeasure.Ruler is documented as not goroutine-safe)"])
+_pp("C28", "pipe_render", "4.11", "Export stage guard: TLC checks shapes <-> objects and connections <-> connections (with source and destination IDs) are bijections, and every style value the user set equals the exported one, under several themes incl. the special-rule themes",
+    _gen_render + "Non-trivial: every diagram.", "One-to-one and user-wins guards of the Export stage.", ["style keys compared: opacity, stroke, fill, stroke-width, stroke-dash, border-radius, shadow, 3d, multiple, font-size, font-color, bold, italic, double-border, animated; numbers compared numerically", "sequence-diagram lifeline pseudo-connections are excluded"])
+_pp("C29", "pipe_render", "4.11", "Render stage guard: every drawn extent (shape box with half stroke, shadow, 3D/multiple offsets, outside label box, route points with half stroke, connection label box) inside the reported bounding box (1 px), inner SVG viewBox contains the box plus padding",
+    _gen_render + "Non-trivial: every diagram.", "Enclosure guard of the Render stage.", ["outside label and connection label positions come from the public helpers label.Position.GetPointOnBox and Connection.GetLabelTopLeft (trusted)", "icons and arrowhead labels are not measured"])
+_pp("C30", "pipe_render", "4.11", "Render stage guard: strict XML tokenisation succeeds, no user marker inside element/attribute names, no duplicate attributes, element and attribute names within the renderer's vocabulary learnt from marker-free twins",
+    _gen_render + "Non-trivial: every diagram.", "Well-formedness and non-injection guard of the Render stage.", _rn_assume)
+_pp("C31", "pipe_render", "4.11", "Render stage guard: for each of the 18 theme colour codes the .fill-XX rule of the light block (and of the dark media block) equals the override when given, else the catalog colour of the requested theme; unknown theme IDs must be rejected",
+    _gen_render + "Non-trivial: every diagram.", "Theme table guard: observed[code] = IF code in overrides THEN override ELSE catalog[theme][code].", ["colours are read from the .fill-XX rules of the embedded stylesheet; inline colours are not inspected", "catalog colours are read from d2themescatalog (the table being checked against is the code's own catalog)"])
+
+
 # ------------------------------------------------------------------------------- manifest data
 HOOK_COMMITS = ["9d004ebd4", "879b5d739"]
 
